@@ -198,6 +198,7 @@ fn rich_xmp(bits: u64, force_wrapper: bool, no_description: bool) -> String {
             same("xmlns:dc", "http://purl.org/dc/elements/1.1/"),
             same("xmlns:photoshop", "http://ns.adobe.com/photoshop/1.0/"),
             same("xmlns:stRef", "http://ns.adobe.com/xap/1.0/sType/ResourceRef#"),
+            same("xmlns:stEvt", "http://ns.adobe.com/xap/1.0/sType/ResourceEvent#"),
         ];
         let old_ref = first && bit(14);
         if first && (bit(7) || old_ref) {
@@ -247,6 +248,20 @@ fn rich_xmp(bits: u64, force_wrapper: bool, no_description: bool) -> String {
         }
         if bit(20) {
             children.push("<xmp:Rating>5</xmp:Rating>".into());
+        }
+        // element-content values whose white space sits between / next to entity or character references, and
+        // values made of white space only (bits 30..33: rdf:li of a Seq, plain properties, nested structure, Alt)
+        if first && bit(30) {
+            children.push("<dc:creator><rdf:Seq><rdf:li>&quot;Tom&quot; &amp; &quot;Jerry&quot;</rdf:li><rdf:li> </rdf:li><rdf:li>&lt;b&gt;\t&amp;\n&#x41; &#66;</rdf:li><rdf:li>&amp;  &amp;</rdf:li></rdf:Seq></dc:creator>".into());
+        }
+        if first && bit(31) {
+            children.push("<photoshop:Credit>&amp; &amp;</photoshop:Credit><xmp:Label>  </xmp:Label><photoshop:Source> &quot;lead</photoshop:Source><photoshop:City>trail&apos; </photoshop:City><photoshop:State>\n&#x4E;&#x59; \t&#38;\n</photoshop:State>".into());
+        }
+        if first && bit(32) {
+            children.push(format!("<xmpMM:History>{nl}<rdf:Seq>{nl}<rdf:li rdf:parseType=\"Resource\">{nl}<stEvt:action>&quot;saved&quot; &amp; &quot;closed&quot;</stEvt:action>{nl}<stEvt:parameters>\t</stEvt:parameters>{nl}<stEvt:softwareAgent> &#x41;&#10;&#66; </stEvt:softwareAgent>{nl}</rdf:li>{nl}</rdf:Seq>{nl}</xmpMM:History>"));
+        }
+        if first && bit(33) {
+            children.push("<dc:rights><rdf:Alt><rdf:li xml:lang=\"x-default\">&#169; &#x32;&#x30;24 &amp; &lt;co&gt;</rdf:li><rdf:li xml:lang=\"de\">\n</rdf:li><rdf:li xml:lang=\"fr\"> &amp;</rdf:li></rdf:Alt></dc:rights>".into());
         }
         if children.is_empty() && bit(21) {
             s.push_str("/>");
@@ -601,6 +616,26 @@ fn add(p: &mut Props, path: &[String], item: &str, val: String) {
     *p.entry((path.join("/"), item.to_string(), val)).or_insert(0) += 1;
 }
 
+/// Character data of a closed element. A leaf element that is an XMP property value (anything but the RDF
+/// scaffolding) keeps its decoded text EXACTLY, white space included (a value may consist of white space only);
+/// scaffolding elements and elements with children keep their non-blank pieces trimmed (indentation is not a value).
+fn close_element(into: &mut Props, path: &[String], frame: (bool, Vec<String>)) {
+    let name = path.last().map(|s| s.as_str()).unwrap_or("");
+    let scaffolding = matches!(name, "x:xmpmeta" | "rdf:RDF" | "rdf:Description" | "rdf:Bag" | "rdf:Seq" | "rdf:Alt");
+    if !frame.0 && !scaffolding {
+        let v: String = frame.1.concat();
+        if !v.is_empty() {
+            add(into, path, "#text", v);
+        }
+    } else {
+        for t in &frame.1 {
+            if !t.trim().is_empty() {
+                add(into, path, "#text", t.trim().to_string());
+            }
+        }
+    }
+}
+
 /// Scan well-formed XML text. Processing instructions and comments are skipped; whitespace-only text is ignored.
 fn xml_props(txt: &str, into: &mut Props) -> Result<(), String> {
     xml_props_flag(txt, into).map(|_| ())
@@ -612,12 +647,13 @@ fn xml_props_flag(txt: &str, into: &mut Props) -> Result<bool, String> {
     let b = txt.as_bytes();
     let mut i = 0;
     let mut path: Vec<String> = vec![];
+    // per open element: (has child elements, decoded character-data pieces)
+    let mut frames: Vec<(bool, Vec<String>)> = vec![];
     while i < b.len() {
         if b[i] != b'<' {
             let e = txt[i..].find('<').map(|k| i + k).unwrap_or(b.len());
-            let t = txt[i..e].trim();
-            if !t.is_empty() && !path.is_empty() {
-                add(into, &path, "#text", unescape(t));
+            if let Some(f) = frames.last_mut() {
+                f.1.push(unescape(&txt[i..e]));
             }
             i = e;
             continue;
@@ -629,15 +665,19 @@ fn xml_props_flag(txt: &str, into: &mut Props) -> Result<bool, String> {
             i += rest.find("-->").ok_or("unterminated comment")? + 3;
         } else if rest.starts_with("<![CDATA[") {
             let e = rest.find("]]>").ok_or("unterminated CDATA")?;
-            add(into, &path, "#text", rest[9..e].to_string());
+            if let Some(f) = frames.last_mut() {
+                f.1.push(rest[9..e].to_string());
+            }
             i += e + 3;
         } else if rest.starts_with("</") {
             let e = rest.find('>').ok_or("unterminated end tag")?;
             let name = rest[2..e].trim();
-            match path.pop() {
+            match path.last() {
                 Some(open) if open == name => {}
                 other => return Err(format!("end tag {name} closes {other:?}")),
             }
+            close_element(into, &path, frames.pop().unwrap_or_default());
+            path.pop();
             i += e + 1;
         } else {
             // start tag
@@ -650,7 +690,11 @@ fn xml_props_flag(txt: &str, into: &mut Props) -> Result<bool, String> {
             if name.is_empty() {
                 return Err("empty element name".into());
             }
+            if let Some(f) = frames.last_mut() {
+                f.0 = true;
+            }
             path.push(name);
+            frames.push((false, vec![]));
             add(into, &path, "#element", String::new());
             let mut empty = false;
             loop {
@@ -700,6 +744,7 @@ fn xml_props_flag(txt: &str, into: &mut Props) -> Result<bool, String> {
                 k = ve + 1;
             }
             if empty {
+                frames.pop();
                 path.pop();
             }
             i += k;
@@ -773,6 +818,33 @@ fn packets_raw(b: &[u8]) -> Vec<String> {
     v
 }
 
+fn drop_ws_nodes(t: &str) -> String {
+    let c: Vec<char> = t.chars().collect();
+    let mut out = String::new();
+    let mut in_tag = false;
+    let mut i = 0;
+    while i < c.len() {
+        if c[i] == '<' {
+            in_tag = true;
+        } else if c[i] == '>' {
+            in_tag = false;
+        }
+        if !in_tag && c[i].is_ascii_whitespace() && i > 0 && (c[i - 1] == ';' || c[i - 1] == '>') {
+            let mut j = i;
+            while j < c.len() && c[j].is_ascii_whitespace() {
+                j += 1;
+            }
+            if j < c.len() && (c[j] == '&' || c[j] == '<') {
+                i = j;
+                continue;
+            }
+        }
+        out.push(c[i]);
+        i += 1;
+    }
+    out
+}
+
 fn props_of(b: &[u8]) -> Result<(Props, usize), String> {
     let mut p = Props::new();
     let ps = packets(b);
@@ -806,7 +878,7 @@ fn case_strategy(kinds: Vec<String>, seeds: u64) -> impl Strategy<Value = Case> 
         0..seeds,
         prop_oneof![5 => Just("synth"), 6 => Just("rich"), 2 => Just("resign"), 1 => Just("nodesc"), 2 => Just("fixture")],
         // the quoted headline (bit 9) only in a quarter of the draws: with single-quoted attributes it ends the case at signing
-        prop_oneof![3 => prop::bits::u64::masked(0x3FFF_FFFF & !(1 << 9)), 1 => prop::bits::u64::masked(0x3FFF_FFFF)],
+        prop_oneof![3 => prop::bits::u64::masked(0x3_FFFF_FFFF & !(1 << 9)), 1 => prop::bits::u64::masked(0x3_FFFF_FFFF)],
         prop_oneof![4 => Just(false), 1 => Just(true)],
         url_strategy(),
     )
@@ -867,7 +939,7 @@ fn source_asset(run: &Run, c: &Case) -> Result<Vec<u8>, String> {
             let x = rich_xmp(c.xmp_seed, c.kind == "svg", c.xmp == "nodesc");
             let mut last = String::new();
             for k in 0..80 {
-                match insert_xmp(&c.kind, &synth_at(k), x.as_bytes(), c.xmp_seed >> 27) {
+                match insert_xmp(&c.kind, &synth_at(k), x.as_bytes(), (c.xmp_seed >> 27) & 7) {
                     Ok(b) => {
                         if k > 0 {
                             run.count("rich:asset-seed-walked");
@@ -962,6 +1034,18 @@ fn judge(run: &Run, c: &Case) -> CaseResult {
         256..=1023 => "urllen:256-1023",
         _ => "urllen:>=1024",
     });
+    if c.xmp == "rich" {
+        let mut any = false;
+        for (bit, name) in [(30, "rdf:li"), (31, "plain-element"), (32, "nested-struct"), (33, "lang-alt")] {
+            if c.xmp_seed >> bit & 1 == 1 {
+                any = true;
+                run.count(&format!("xmp-value:ws-between/next-to-refs+ws-only:{name}"));
+            }
+        }
+        if any {
+            run.count("xmp-value:ws-between/next-to-refs+ws-only:any");
+        }
+    }
     if had_xmp || uclass == "url:amp" || uclass == "url:apos" || uclass == "url:amp+apos" {
         run.nontrivial(&(c.kind.clone(), c.xmp.clone(), c.xmp_seed, u.clone(), had_xmp));
     }
@@ -1087,7 +1171,16 @@ fn judge(run: &Run, c: &Case) -> CaseResult {
     }
 
     // (2) what was written, read by the harness scanner
-    match props_of(&signed) {
+    let signed_props = if selftest() == "dropws" {
+        // emulate a writer that drops white-space-only character-data nodes (quick-xml splits character data at
+        // every reference): outside tags, white space bounded by ';' or '>' on the left and '&' or '<' on the right
+        let mut p = Props::new();
+        let ps = packets(&signed);
+        ps.iter().try_for_each(|t| xml_props(&drop_ws_nodes(t), &mut p)).map(|_| (p, ps.len()))
+    } else {
+        props_of(&signed)
+    };
+    match signed_props {
         Err(e) => fails.push(Fail::new(format!("C30:written-xmp-malformed:{fam}"), format!("XMP of the signed asset is not well-formed for the harness scanner: {e}; {desc}"))),
         Ok((mut new_props, n_packets)) => {
             if c.kind == "gif" {
